@@ -1092,3 +1092,86 @@ func ruleR7_4(w *World, r *Report) {
 		r.Unk("R7.4", "MUS methods", "-", fmt.Sprintf("%d success return(s) of MUS* methods found", n))
 	}
 }
+
+// ---------- R11.9: formula constructors do not embed helper variables in the formula they return ----------
+
+// A helper variable with its defining equivalences inside the formula is only sound where the formula occurs
+// positively: under a negation (or on either side of an equivalence) the solver is free to break the definitions and
+// thereby "falsify" the formula for any assignment of the real variables. Helper variables belong to the clause-level
+// translation, which runs on the whole formula after negations were pushed to the leaves.
+func ruleR11_9(w *World, r *Report) {
+	r.Rule("R11.9", "no exported constructor of package bf returning a Formula builds that formula from helper variables (variables created with the dummy flag): such definitions are only sound at positive polarity", 1)
+	m, _ := bfOf(w)
+	if m.err != "" {
+		r.Unk("R11.9", "bf.Formula", "-", m.err)
+		return
+	}
+	// makers of helper variables: functions returning a struct whose bool flag is the constant true
+	makers := map[*ssa.Function]bool{}
+	for _, fn := range m.fns {
+		res := fn.Signature.Results()
+		if res.Len() != 1 {
+			continue
+		}
+		st, ok := res.At(0).Type().Underlying().(*types.Struct)
+		if !ok {
+			continue
+		}
+		flag := -1
+		for i := 0; i < st.NumFields(); i++ {
+			if b, isB := st.Field(i).Type().Underlying().(*types.Basic); isB && b.Kind() == types.Bool {
+				flag = i
+			}
+		}
+		if flag < 0 {
+			continue
+		}
+		all, any := true, false
+		for _, b := range fn.Blocks {
+			if ret, isRet := b.Instrs[len(b.Instrs)-1].(*ssa.Return); isRet && len(ret.Results) == 1 {
+				any = true
+				if !structFieldIsTrue(w, ret.Results[0], flag, 0) {
+					all = false
+				}
+			}
+		}
+		if all && any {
+			makers[fn] = true
+		}
+	}
+	if len(makers) == 0 {
+		r.Unk("R11.9", "helper-variable makers", "-", "no function of package bf returns a variable with the dummy flag set")
+		return
+	}
+	n := 0
+	for _, fn := range m.fns {
+		if fn.Object() == nil || !fn.Object().Exported() || fn.Signature.Recv() != nil || fn.Signature.Results().Len() != 1 || !m.isFormula(fn.Signature.Results().At(0).Type()) {
+			continue
+		}
+		n++
+		key := "bf." + fn.Name() + " builds its formula from real variables only"
+		var via []string
+		for g := range w.Reachable(fn) {
+			if !m.inPkg[g] {
+				continue
+			}
+			for _, ci := range callsIn(g) {
+				for _, c := range w.Callees[ci] {
+					if makers[c] {
+						via = append(via, w.FuncName(g)+" at "+w.InstrPos(ci))
+					}
+				}
+			}
+		}
+		if len(via) > 0 {
+			via = dedupe(via)
+			sort.Strings(via)
+			r.Bad("R11.9", key, w.Pos(fn.Pos()), "the returned formula contains helper variables and their definitions ("+strings.Join(via, "; ")+"): under a negation the solver may break the definitions instead of the property they encode, so the negated formula is satisfied by assignments that do not satisfy it")
+		} else {
+			r.OK("R11.9", key, w.Pos(fn.Pos()), "no helper variable is created on the way")
+		}
+	}
+	if n == 0 {
+		r.Unk("R11.9", "constructors", "-", "no exported constructor returning a Formula")
+	}
+}
